@@ -15,7 +15,7 @@ POLICIES = [(h, s) for h in range(4) for s in range(4) if not (h == 0 and s == 3
 
 
 def tok_len(t):
-    if t in ("K", "KZ", "KL"):
+    if t in ("K", "KZ", "KL", "K13") or t.startswith("KP"):
         return 96
     if t in ("R", "RX"):
         return 20
@@ -329,6 +329,58 @@ def identity(rng, full):
     return cases
 
 
+def keyshape(rng, full):
+    """MSE initiators whose DH public key looks like the start of a plain handshake: a legal key with first byte
+    0x13 (1 key in 256) must be served like any other; 96 'key' bytes that begin with the first k bytes of
+    "\\x13BitTorrent protocol" (k = 1..19) are not a plain handshake."""
+    cases = []
+    for (hs, st) in POLICIES:
+        if hs == 0:
+            continue
+        for p in (1, 2, 3):
+            for ia in (0, 1):
+                ph, sg = in_mse(p, rng.choice([0, 1, 7, 255, 512]), rng.choice([0, 1, 9]), ia)
+                ph[0][0] = "K13"
+                cases.append((case_in(hs, st, 1, script(ph, sg)), "matrix"))
+    ph, _ = in_mse(3, 5, 0, 1)
+    ph[0][0] = "K13"
+    for o in list(range(1, 30)) + [95, 96, 97]:
+        cases.append((case_in(1, 1, 1, script(ph, (str(o), "W", "W"))), "segmentation"))
+    cases.append((case_in(1, 1, 1, script(ph, ("B", "W", "W"))), "segmentation"))
+    for k in range(1, 20):
+        for (hs, st) in ((1, 1), (3, 3), (2, 0)):
+            for sg in ("W", str(k), "20", "B"):
+                cases.append((case_in(hs, st, 0, phase(["KP%d" % k, "O4"], sg)), "malformed"))
+    return cases
+
+
+def dual(rng, full):
+    """two incoming handshakes alive at the same time, their segments interleaved: handshakes do not
+    interfere (the model is the product of two independent runs)"""
+    cases = []
+    orders = ["ABAABB", "ABABAB", "ABBBAA", "AABABB", "ABBABA", "BAABBA", "AABBAB"]
+    pols = POLICIES if full else [(1, 1), (1, 2), (2, 2), (3, 3), (1, 0), (2, 1)]
+    for (hs, st) in pols:
+        if hs == 0:
+            continue
+        for order in orders:
+            for _ in range(2 if not full else 4):
+                pa, pb = rng.choice([1, 2, 3]), rng.choice([1, 2, 3])
+                A, sa = in_mse(pa, rng.choice([0, 1, 40, 511]), rng.choice([0, 3, 512]), rng.randrange(2))
+                B, sb = in_mse(pb, rng.choice([0, 2, 300, 512]), rng.choice([0, 5]), rng.randrange(2))
+                cases.append("D %d %d 1 %s %s %s" % (hs, st, script(A, sa), script(B, sb), order))
+        # finer interleaving: A's second flight cut inside req1 / skey / negotiation while B's flights pass
+        A, _ = in_mse(3, 3, 2, 1)
+        B, _ = in_mse(3, 0, 0, 0)
+        for cut in ("10", "20", "30", "40", "48", "54", "20.40.54"):
+            n = cut.count(".") + 2
+            cases.append("D %d %d 1 %s %s %s" % (hs, st, script(A, ("W", cut, "W")), script(B, ("W", "W", "W")), "AB" + "AB" * n + "AB"))
+        # one MSE, one plain
+        A, sa = in_mse(3, 7, 0, 1)
+        cases.append("D %d %d 1 %s %s %s" % (hs, st, script(A, sa), plain_script("30"), "ABABA"))
+    return cases
+
+
 def arbitrary(rng, n):
     cases = []
     for _ in range(n):
@@ -364,13 +416,18 @@ def gen_tagged(seed, tier):
         corpus += [l.rstrip("\n") for l in open(f) if l.strip() and not l.startswith("#")]
     streams = [("corpus", corpus), ("matrix", matrix(rng, full)), ("segmentation", seg_sweep(rng, full)),
                ("bytewise", bytewise(rng, 150 if full else 24)), ("malformed", malformed(rng, 1200 if full else 150)),
-               ("identity", identity(rng, full)),
+               ("identity", identity(rng, full)), ("dual", dual(rng, full)),
                ("arbitrary", arbitrary(rng, 1500 if full else 150))]
     cases, tags, stats = [], [], {}
     for name, cs in streams:
         stats[name] = len(cs)
         cases += [c if name == "corpus" else c + " #" + name for c in cs]
         tags += [name] * len(cs)
+    ks = keyshape(rng, full)
+    stats["keyshape"] = len(ks)
+    for c, tg in ks:
+        cases.append(c + " #" + tg)
+        tags.append(tg)
     stats["incoming"] = sum(1 for c in cases if c.startswith("I"))
     stats["outgoing"] = sum(1 for c in cases if c.startswith("O"))
     return cases, tags, stats
